@@ -158,7 +158,7 @@ CHECKS = {
                 technique="runtime monitoring under fault injection: counting allocator with a ledger installed through "
                           "ares_library_init_mem, every allocation index of each deterministic scenario failed in turn, "
                           "under ASan+UBSan with the request/descriptor/index monitors of the simulator",
-                text="Held on the scenario family enumerated (22 kinds x variants; every allocation made between "
+                text="Held on the scenario family enumerated (25 kinds x variants; every allocation made between "
                      "ares_init_options and the end of ares_destroy, one failure per run, tens of thousands of runs quick): no "
                      "sanitizer report or abort, every request exactly one callback, nothing stuck, descriptor protocol and "
                      "query indexes intact, ledger empty after destroy, no free of an unknown block, a fresh query after the "
